@@ -1,10 +1,12 @@
 // native replay for C01: exit 1 = the real library violates "eq => equal hash" on the counterexample
 #include "leafnum.h"
+#include "composite.h"
 int main(int argc, char **argv)
 {
     if (argc < 2) return 3;
     std::string obl = argv[1];
     Args a = parse_args(argc, argv);
+    if (is_composite_obligation(argv[1])) return composite_search(argv[1], false);
     if (obl.find("hash_combine") != std::string::npos) return 0;   // function-ness cannot fail natively on one run
     RCP<const Basic> x = slot(a, "A", "ka");
     bool same = has(a, "pb_is_a") && int_of(a, "pb_is_a") != 0;
